@@ -191,6 +191,9 @@ def run(ctx: Ctx) -> None:
         if setting != want:
             if tested in RENAMES or want in cattrs or want in cprops:
                 problems.append(f"writes config.{setting}; this flag's setting is config.{want}")
+        foreign = [(norm(t), p_) for t, p_ in gs if not (isinstance(t, ast.Compare) and dotted(t.left) == f"args.{tested}")]
+        if foreign:
+            problems.append(f"also guarded by {foreign}: the flag is ignored for some combinations of other flags")
         if not deprecated:
             setting_writers.setdefault(setting, []).append(tested)
         ctx.check("C19.R1", where, f"flag:{tested}", not problems, f"--{tested.replace('_', '-')}: " + "; ".join(problems), node,
@@ -272,6 +275,7 @@ def run(ctx: Ctx) -> None:
             pk = provenance(c.args[1], fm)
             tgt = provenance(c.args[0], fm)
             ok = "cls()" in tgt.ops and "items()" in p.ops and "items()" in pk.ops and "[1]" in p.ops and "[0]" in pk.ops
+    ok = ok and all(not guard_atoms(c) for c in setattrs)
     ctx.check("C19.R4", cw + ".from_mapping", "setattr(config, key, value) for every item", ok, "from_mapping must setattr every (key, value) of mapping and kwargs on a fresh cls()", fm)
     # both mapping and kwargs merged
     upd = [norm(c) for c in calls(fm) if call_name(c) and call_name(c).endswith(".update")]
